@@ -121,4 +121,20 @@ theorem C07_escapeall_length (bs : Bytes) : (escapeall bs).length = 3 + 4 * bs.l
 
 example : escapeall [0x73, 0x0a, 0xff] = [98, 39, 92, 120, 55, 51, 92, 120, 48, 97, 92, 120, 102, 102, 39] := by decide
 
+/-! ### `hextable` renders rows through the same `bytes.__repr__` model -/
+
+/-- data that fits one line is one row at offset 0 whose text column is `repr(data)` -/
+theorem C07_hextable_one_row (bs : Bytes) (cols : Nat) (hne : bs ≠ []) (hfit : bs.length ≤ 2 * cols) :
+    hextable bs cols = hexRow cols 0 bs := hextable_one_row bs cols hne hfit
+
+/-- a full line followed by a partial one: the second row starts at byte offset `2 * cols` -/
+theorem C07_hextable_two_rows (a b : Bytes) (cols : Nat) (ha : a.length = 2 * cols) (hc : 0 < cols)
+    (hne : b ≠ []) (hfit : b.length ≤ 2 * cols) :
+    hextable (a ++ b) cols = hexRow cols 0 a ++ hexRow cols (2 * cols) b :=
+  hextable_two_rows a b cols ha hc hne hfit
+
+/-- `hextable(b"$G", 2)` = `"000: 2447      | b'$G' |\n"` -/
+example : hextable [0x24, 0x47] 2
+    = [48, 48, 48, 58, 32, 50, 52, 52, 55, 32, 32, 32, 32, 32, 32, 32, 124, 32, 98, 39, 36, 71, 39, 32, 124, 10] := by decide
+
 end Rtcm
